@@ -123,7 +123,7 @@ def classify(site, detail):
         if "/op_store/operations/" in detail:
             return {"e": "op", "id": os.path.basename(detail)[:16]}
         if "/op_store/views/" in detail:
-            return {"e": "view", "id": ""}
+            return {"e": "view", "id": os.path.basename(detail)[:16]}
         if detail.endswith("/working_copy/tree_state"):
             return {"e": "treestate", "id": ""}
         if detail.endswith("/working_copy/checkout"):
@@ -217,6 +217,7 @@ def run_scenario(ctx, lab, name, prep, cmd, rng, max_kills):
     repo = os.path.join(pws, ".jj", "repo")
     start = sorted(n[:16] for n in os.listdir(os.path.join(repo, "op_heads", "heads")) if len(n) >= 32)
     existing = sorted(n[:16] for n in os.listdir(os.path.join(repo, "op_store", "operations")) if len(n) >= 32)
+    existing_views = sorted(n[:16] for n in os.listdir(os.path.join(repo, "op_store", "views")) if len(n) >= 32)
     pre_files = disk_files(pws)
     # traced, uninterrupted run
     full = lab.copy(pristine)
@@ -232,6 +233,10 @@ def run_scenario(ctx, lab, name, prep, cmd, rng, max_kills):
         parts = line.rstrip("\n").split(" ", 3)
         points.append((int(parts[1]), parts[2], parts[3] if len(parts) > 3 else ""))
     ops = lab.ops(os.path.join(full, "ws"))
+    rc, out, err = sh_run([lab.fsck, os.path.join(full, "ws", ".jj", "repo")], full, lab.environ())
+    if rc != 0:
+        raise vf.ToolError("fsck failed: " + err[-500:])
+    viewof = sorted([o[:16], v[:16]] for o, v in json.loads(out)["view_of"].items())
     shutil.rmtree(full)
     effs = [classify(s, d) for _, s, d in points]
     K = len(points)
@@ -252,6 +257,7 @@ def run_scenario(ctx, lab, name, prep, cmd, rng, max_kills):
         results = dict(ex.map(kill_at, kills))
     shutil.rmtree(pristine, ignore_errors=True)
     recs = [{"a": "reset", "case": name, "cmd": " ".join(cmd), "ops": ops, "start": start, "existing": existing,
+             "existing_views": existing_views, "viewof": viewof,
              "points": K}]
     for i in range(K):
         if i in results:
@@ -287,7 +293,7 @@ def run_check(ctx):
             f.write(json.dumps(r) + "\n")
     j = vf.judge_records(ctx, "Trace_Durability", trace, chunk=100000,
                          case_start=lambda line: '"a": "reset"' in line or '"a":"reset"' in line,
-                         sig_fn=lambda r, v: v + (":" + r.get("site", "") if r.get("a") == "crash" else ""))
+                         sig_fn=lambda r, v: v + (":" + r.get("site", "") if r.get("a") == "crash" else ":" + r.get("e", "")))
     crashes = [r for r in all_recs if r["a"] == "crash"]
     ctx.cov["evaluations"] = len(crashes)
     ctx.cov["distinct_nontrivial"] = len({(r["i"], r["site"], r["head"], r["wc"]) for r in crashes if r["killed"]})
